@@ -12,7 +12,6 @@ import (
 	"testing"
 	"time"
 
-	rlog "github.com/alibaba/RedisShake/pkg/libs/log"
 	run "github.com/alibaba/RedisShake/redis-shake"
 	conf "github.com/alibaba/RedisShake/redis-shake/configure"
 	"pgregory.net/rapid"
@@ -183,8 +182,7 @@ func c07Check(t fataler, c *c07Case) {
 		resetFilters()
 		o.Parallel, o.TargetDB, o.KeyExists, o.BigKeyThreshold = 1, -1, "none", 500*1024*1024
 	}()
-	rlog.SetLevel(rlog.LEVEL_INFO)
-	defer rlog.SetLevel(rlog.LEVEL_ALL)
+	defer quietLog()()
 	srv := newTarget(targetKinds[3])
 	defer srv.Close()
 	sentinel := gen.Value{Kind: "string", Str: []byte("pre-existing value")}
